@@ -212,6 +212,18 @@ def rule_same_context(ctx):
             continue
         okl = loc is not None and loc[0] == "call" and loc[1].endswith("MemoryWriter::location")
         sect = strip(loc[2][0]) if okl else None
+        if vname == "CrashContext":
+            # "for every ucontext content": once the blamed thread's stack step has succeeded, every path to the record write stores the
+            # supplied context's location (nothing in between — a lookup of the instruction pointer, a size test — may skip it)
+            from rules.c09 import success_successor
+            fts = [x for x, t in b.calls(lambda c: (c.short or "").endswith("fill_thread_stack")) if b.dominates(x, bi)]
+            okp = False
+            if fts:
+                f0 = max(fts, key=lambda x: sum(1 for y in fts if b.dominates(y, x)))
+                nxt = success_successor(b, f0)
+                okp = nxt is not None and must_pass(b, nxt, {x for x, _ in sets}, {bi}) is None
+            ctx.check(okp, R, (vname, "on-every-path"), b.where(bi, si), "with a crash context and the blamed thread, every path to the thread record stores the supplied context",
+                      "the supplied crash context can be skipped for the blamed thread: a path from the stack step to the record write bypasses the store to crashing_thread_context")
         # the thread record of this branch uses the same section
         same = False
         for ra in rec_alts:
